@@ -35,12 +35,16 @@ Uniform16(h, n) == \A k \in 1..16 : Abs(16 * h[k] - n) <= 31 * (ISqrt(n) + 1)
 FreshCoords(same, npairs) == same <= 2 + npairs \div 536870912
 \* an error of exactly 0 has probability about 0.4 / (alpha 2^32): eight plus ten times the expectation are accepted (a clipped or skipped noise term shows as a pile of exact zeros)
 FewZeros(zeros, n, s32) == s32 >= 1 => zeros <= 8 + (4 * n) \div s32
+\* consecutive errors of a stream are independent draws: two equal in a row has probability about 0.28 / (alpha 2^32); eight plus fourteen times the expectation are
+\* accepted (rows of a key that share one noise value, or a noise vector consumed with a stuck index, show as a pile of repeats)
+FreshErrs(sameerr, n, s32) == s32 >= 1 => sameerr <= 8 + (4 * n) \div s32
 StreamOK(s, ev) == IF ev.exact = 1 THEN s.mx = 0 /\ s.s2 = 0                                   \* alpha = 0: noiseless, exactly
                    ELSE /\ s.n >= 500
                         /\ SdIs64(s, ev.s32)                                                     \* neither larger (correctness) nor smaller (security)
                         /\ Abs(s.s1) <= 8 * 64 * (ISqrt(s.n) + 1) + s.n                          \* centred: |mean| <= 8 sigma / sqrt(n)  (+1 unit of rounding per sample)
                         /\ s.mx < 640 + 64                                                       \* no sample beyond 10 sigma
                         /\ FewZeros(ev.zeros, s.n, ev.s32)
+                        /\ FreshErrs(ev.sameerr, s.n, ev.s32)
 TEnd == /\ Ev.e = "StreamEnd"
         /\ verdict' = (verdict /\ StreamOK(st[Ev.s], Ev) /\ Uniform16(Ev.hist, Ev.nmask) /\ FreshCoords(Ev.same, Ev.npairs))
         /\ UNCHANGED <<st, memo, seen, nrand>>
